@@ -90,6 +90,7 @@ def run_case(case: Dict[str, Any]) -> CaseResult:
         res.evals += 1
         if res.violations:
             break
+    I.cleanup()
     _classify(case, I, res)
     return res
 
@@ -177,6 +178,8 @@ def make_machine(H: Harness) -> Any:
             self.do({"op": "copy", "inst": self._inst(data)})
 
         def teardown(self) -> None:
+            if self.I is not None:
+                self.I.cleanup()
             if self.I is not None and not self.failed and self.case.get("ops"):
                 res = CaseResult()
                 res.evals = len(self.case["ops"])
